@@ -28,17 +28,29 @@ if [ -n "$DEMO" ]; then
 fi
 if go test -count=1 ./... >"$OUT/suite_patched.log" 2>&1; then res "suite-with-patch: PASS"; else res "suite-with-patch: FAIL"; fi
 cd /verif
-git -C /repo worktree remove --force "$WT"
 cp "$SRC/patch.diff" "$OUT/patch.diff"
 [ -n "$DEMO" ] && cp "$DEMO" "$OUT/demo_test.go.txt"
 cp "$SRC/README.md" "$OUT/README.agent.md" 2>/dev/null
-# run checks against the patched /repo
-if ! git -C /repo diff --quiet; then echo "/repo dirty, abort"; exit 2; fi
-git -C /repo apply "$SRC/patch.diff" || { res "apply to /repo failed"; exit 2; }
-for p in $PROPS; do
-  VERIF_BUDGET_S=${SEED_BUDGET_S:-10} /verif/check $p quick > "$OUT/check_$p.log" 2>&1
-  rc=$?
-  res "check $p: exit=$rc $(grep -c '^VIOLATION' "$OUT/check_$p.log") violation line(s); first signature: $(grep -m1 'signature:' "$OUT/check_$p.log")"
-done
-git -C /repo checkout -- .
-git -C /repo status --short | head -3
+# run checks against the patched checkout. By default the patch is applied to /repo itself and undone
+# afterwards; with SEED_SCRATCH=1 the checks are pointed at the scratch worktree instead (VERIF_REPO),
+# so that long background runs that build from /repo are not disturbed.
+if [ "${SEED_SCRATCH:-0}" = "1" ]; then
+  (cd "$WT" && git checkout -q -- . && git clean -fdq && git apply "$SRC/patch.diff") || { res "apply to scratch failed"; exit 2; }
+  for p in $PROPS; do
+    VERIF_REPO="$WT" VERIF_BUDGET_S=${SEED_BUDGET_S:-10} /verif/check $p quick > "$OUT/check_$p.log" 2>&1
+    rc=$?
+    res "check $p: exit=$rc $(grep -c '^VIOLATION' "$OUT/check_$p.log") violation line(s); first signature: $(grep -m1 'signature:' "$OUT/check_$p.log")"
+  done
+  git -C /repo worktree remove --force "$WT"
+else
+  git -C /repo worktree remove --force "$WT"
+  if ! git -C /repo diff --quiet; then echo "/repo dirty, abort"; exit 2; fi
+  git -C /repo apply "$SRC/patch.diff" || { res "apply to /repo failed"; exit 2; }
+  for p in $PROPS; do
+    VERIF_BUDGET_S=${SEED_BUDGET_S:-10} /verif/check $p quick > "$OUT/check_$p.log" 2>&1
+    rc=$?
+    res "check $p: exit=$rc $(grep -c '^VIOLATION' "$OUT/check_$p.log") violation line(s); first signature: $(grep -m1 'signature:' "$OUT/check_$p.log")"
+  done
+  git -C /repo checkout -- .
+  git -C /repo status --short | head -3
+fi
